@@ -7,7 +7,7 @@ THEOREM_NOTE = ("Props/C03.lean + Props/C03b.lean: routing (innermost level owni
                 "only after that level was closed (under the history hypothesis WFClose); closing restores the enclosing loop (under WFClose and WFDrain)")
 LEAN_MODULES = ["C03", "C03b"]
 ASSUMPTIONS = ASSUME_SESSION + ["known finding K1 (second close_loop / execute_new_loop before the innermost _mainloop regained control) is excluded from the blocks/resumes clauses by the history hypotheses WFClose/WFDrain, evaluated by the model per case"]
-RULE = ("loop-mode programs with nesting depth up to 5, sources registered at various levels / nowhere / several, enqueues for outer sources from inner handlers, closes at "
+RULE = ("[thorough tier adds the small-scope exhaustive enumeration of harness/gen/exhaustive.py: every loop program with a <= 2-action and a <= 1-action handler over a 10-action alphabet, 3 663 programs] loop-mode programs with nesting depth up to 5, sources registered at various levels / nowhere / several, enqueues for outer sources from inner handlers, closes at "
         "every position; generic loop/app sessions; oracle: every handler invocation's level against the routing rule recomputed from the public-API log; execute_new_loop / "
         "push_screen_modal return with the same levels open as at the call; non-trivial = a signal dispatched at depth >= 2 or routed to a non-active level")
 
@@ -58,6 +58,9 @@ def generate(rnd, tier):
     n = 500 if tier == "quick" else 6000
     sid = SidCounter()
     cases = [gen_c03(rnd, sid) for _ in range(n)] + [gen_c03_chain(rnd, sid) for _ in range(n)] + [gen_case(rnd, "loop", sid) for _ in range(n // 2)] + [gen_case(rnd, "app", sid) for _ in range(n // 4)]
+    if tier == "thorough":
+        from harness.gen.exhaustive import loop_programs
+        cases += list(loop_programs(sid))          # small-scope exhaustive: 3 663 programs
     return [with_cc(c) for c in cases]
 
 
